@@ -585,11 +585,28 @@ func runParent(prop, tier string) int {
 	return exit
 }
 
+// sigMatch matches a known-finding pattern against a signature; '*' matches any run of characters.
 func sigMatch(pattern, sig string) bool {
-	if strings.HasSuffix(pattern, "*") {
-		return strings.HasPrefix(sig, strings.TrimSuffix(pattern, "*"))
+	if !strings.Contains(pattern, "*") {
+		return pattern == sig
 	}
-	return pattern == sig
+	parts := strings.Split(pattern, "*")
+	if !strings.HasPrefix(sig, parts[0]) {
+		return false
+	}
+	rest := sig[len(parts[0]):]
+	for i := 1; i < len(parts); i++ {
+		p := parts[i]
+		if i == len(parts)-1 {
+			return strings.HasSuffix(rest, p)
+		}
+		j := strings.Index(rest, p)
+		if j < 0 {
+			return false
+		}
+		rest = rest[j+len(p):]
+	}
+	return true
 }
 
 func confirmHang(self, replay string) bool {
